@@ -862,18 +862,180 @@ theorem dynOK_slice_static (e : Ty) (he : e.isStaticElem = true) : DynOK (.slice
     rfl
 
 
-/-- executable form of `Ty.Flat` -/
+/-! ## slices of dynamic elements -/
+
+theorem packElems_dyn (e : Ty) (hok : DynOK e) :
+    ∀ (vs : List Val) (offset : Nat), (∀ v ∈ vs, HasTy e v) →
+      (∃ offs packed, packElems (pack e) true vs offset = some (offs, packed) ∧ offs.length = 32 * vs.length ∧
+        ∀ (Opre Tpre post : Bytes) (j0 : Nat), Opre.length = 32 * j0 →
+          offset = Opre.length + offs.length + Tpre.length →
+          (Opre ++ offs ++ Tpre ++ packed ++ post).length ≤ maxAlloc →
+          unpackLoop (toGoType e) wordSize (Opre ++ offs ++ Tpre ++ packed ++ post) ((32 * j0 : Nat) : Int) vs.length = .ok vs)
+      ∨ packElems (pack e) true vs offset = none := by
+  intro vs
+  induction vs with
+  | nil =>
+    intro offset _
+    left
+    refine ⟨[], [], rfl, rfl, ?_⟩
+    intro _ _ _ _ _ _ _
+    rfl
+  | cons v vs' ih =>
+    intro offset hall
+    have hv : HasTy e v := hall v (List.mem_cons_self ..)
+    have hvs : ∀ v' ∈ vs', HasTy e v' := fun v' h' => hall v' (List.mem_cons_of_mem _ h')
+    cases hpk : pack e v with
+    | none => right; simp only [packElems, hpk, Option.bind_eq_bind, Option.bind_none]
+    | some val =>
+      rcases ih (offset + val.length) hvs with ⟨offs', packed', hp1, hp2, hp3⟩ | hnone
+      · left
+        refine ⟨packNum (offset : Int) ++ offs', val ++ packed', ?_, ?_, ?_⟩
+        · simp only [packElems, hpk, Option.bind_eq_bind, Option.bind_some, hp1, if_true]
+          rfl
+        · rw [List.length_append, packNum_length, hp2, List.length_cons]; omega
+        · intro Opre Tpre post j0 hO hoff hlen
+          have hM := maxAlloc_eq
+          have hoff' : offset = Opre.length + (32 + offs'.length) + Tpre.length := by
+            rw [hoff, List.length_append, packNum_length]
+          have hl : (Opre ++ (packNum (offset : Int) ++ offs') ++ Tpre ++ (val ++ packed') ++ post).length
+              = Opre.length + 32 + offs'.length + Tpre.length + val.length + packed'.length + post.length := by
+            simp only [List.length_append, packNum_length]; omega
+          have hb1 : 32 * j0 + 32 ≤ 281474976710656 := by omega
+          have hidx : ((Opre.length : Nat) : Int) ≤ idxBound := by rw [idxBound_eq, hO]; omega
+          have hd1 : Opre ++ (packNum (offset : Int) ++ offs') ++ Tpre ++ (val ++ packed') ++ post
+              = Opre ++ packNum (offset : Int) ++ (offs' ++ Tpre ++ (val ++ packed') ++ post) := by
+            simp only [List.append_assoc]
+          have hd2 : Opre ++ (packNum (offset : Int) ++ offs') ++ Tpre ++ (val ++ packed') ++ post
+              = (Opre ++ packNum (offset : Int) ++ offs' ++ Tpre) ++ val ++ (packed' ++ post) := by
+            simp only [List.append_assoc]
+          have hA : (Opre ++ packNum (offset : Int) ++ offs' ++ Tpre).length = offset := by
+            simp only [List.length_append, packNum_length]; omega
+          have hdec := hok v val hv hpk _ Opre (offs' ++ Tpre ++ (val ++ packed') ++ post)
+            (Opre ++ packNum (offset : Int) ++ offs' ++ Tpre) (packed' ++ post) offset hd1 hd2 hA hlen hidx
+          have e3 : Opre ++ (packNum (offset : Int) ++ offs') ++ Tpre ++ (val ++ packed') ++ post
+              = (Opre ++ packNum (offset : Int)) ++ offs' ++ (Tpre ++ val) ++ packed' ++ post := by
+            simp only [List.append_assoc]
+          have hrest := hp3 (Opre ++ packNum (offset : Int)) (Tpre ++ val) post (j0 + 1)
+            (by rw [List.length_append, packNum_length, hO]; omega)
+            (by simp only [List.length_append, packNum_length]; omega)
+            (by rw [← e3]; exact hlen)
+          have hia : iadd ((32 * j0 : Nat) : Int) wordSize = ((32 * (j0 + 1) : Nat) : Int) := by
+            have := iadd_small (32 * j0) 32 (by omega)
+            rw [wordSize_eq]
+            have e : ((32 : Nat) : Int) = 32 := rfl
+            rw [e] at this
+            rw [this]
+            congr 1
+          have hi : ((32 * j0 : Nat) : Int) = ((Opre.length : Nat) : Int) := by rw [hO]
+          show unpackLoop (toGoType e) wordSize _ _ (vs'.length + 1) = _
+          unfold unpackLoop
+          rw [hia, hi, hdec, Res.bind_ok, e3, hrest]
+          rfl
+      · right
+        simp only [packElems, hpk, Option.bind_eq_bind, Option.bind_some, hnone, Option.bind_none]
+
+
+theorem typeSize_dynamic {e : Ty} (h : e.isDynamic = true) : typeSize e = 32 := by
+  cases e <;> simp_all [Ty.isDynamic, typeSize]
+
+theorem dynOK_slice_dyn (e : Ty) (hd : e.isDynamic = true) (hok : DynOK e) : DynOK (.slice e) := by
+  intro v p hv hp data A0 B0 A B o hd1 hd2 hA hlen hidx
+  match v, hv, hp with
+  | .list vs, hv, hp =>
+    have hv' : ∀ v ∈ vs, HasTy e v := hv
+    have hts := typeSize_dynamic hd
+    simp only [pack, hd, if_true, hts, Option.bind_eq_bind] at hp
+    rcases packElems_dyn e hok vs (32 * vs.length) hv' with ⟨offs, packed, hpe, hol, hdecl⟩ | hnone
+    · rw [hpe] at hp
+      simp only [Option.bind_some] at hp
+      have hp' : p = packNum (vs.length : Int) ++ (offs ++ packed) := by
+        have := Option.some.inj hp
+        rw [← this]
+        unfold packBytesSlice rightPad
+        rw [if_pos (by rw [List.length_append, hol]; have := ceil32_le vs.length; omega)]
+      subst hp'
+      have hM := maxAlloc_eq
+      have hd2' : data = A ++ packNum (vs.length : Int) ++ ((offs ++ packed) ++ B) := by
+        rw [hd2]; simp only [List.append_assoc]
+      have hdl : data.length = o + 32 + (32 * vs.length + packed.length + B.length) := by
+        rw [hd2']; simp only [List.length_append, packNum_length, hA, hol]
+      have hdl1 : data.length = A0.length + 32 + B0.length := by
+        rw [hd1]; simp only [List.length_append, packNum_length]
+      have c0 : ¬ ((A0.length : Int) + 32 > (data.length : Int)) := by omega
+      have hA0 : (0 : Int) ≤ (A0.length : Int) := by omega
+      have b1 : 32 * vs.length ≤ 281474976710656 := by omega
+      have g1 : (0 : Int) ≤ ((o + 32 : Nat) : Int) := by omega
+      have g2 : ((o + 32 : Nat) : Int) ≤ (data.length : Int) := by omega
+      have e1 : (((o + 32 : Nat) : Int)).toNat = o + 32 := by omega
+      have e2 : ((data.length : Int)).toNat - (o + 32) = 32 * vs.length + packed.length + B.length := by omega
+      have csz : ¬ ((vs.length : Int) < 0) := by omega
+      have cchk : ¬ (((32 * vs.length : Nat) : Int) > ((((offs ++ packed) ++ B).length : Nat) : Int)) := by
+        simp only [List.length_append, hol]; omega
+      have cms : (0 : Int) ≤ (vs.length : Int) ∧ (vs.length : Int) * (maxElemSize : Int) ≤ (maxAlloc : Int) := by
+        unfold maxElemSize; rw [hM]; omega
+      have etn : ((vs.length : Int)).toNat = vs.length := by omega
+      have hlpp := lpp_canonical data A0 B0 A (offs ++ packed) B o vs.length hd1 hd2' hA
+        (by rw [List.length_append, hol]; omega) hlen hidx
+      have hsub : goSliceFrom data ((o + 32 : Nat) : Int) = .ok ((offs ++ packed) ++ B) := by
+        unfold goSliceFrom
+        rw [goSlice_ok g1 g2 (Int.le_refl _), e1, e2]
+        apply congrArg Res.ok
+        have : data = (A ++ packNum (vs.length : Int)) ++ ((offs ++ packed) ++ B) := by rw [hd2']
+        rw [this, List.drop_left' (by simp only [List.length_append, packNum_length, hA])]
+        exact List.take_of_length_le (by simp only [List.length_append, hol]; omega)
+      have him := imul_small vs.length b1
+      have hia0 : iadd (0 : Int) ((32 * vs.length : Nat) : Int) = ((32 * vs.length : Nat) : Int) := by
+        have := iadd_small 0 (32 * vs.length) (by omega)
+        simpa using this
+      have hloop := hdecl [] [] B 0 rfl (by simp [hol]) (by
+        have : ([] ++ offs ++ [] ++ packed ++ B).length ≤ data.length := by
+          simp only [List.nil_append, List.append_nil, List.length_append, hol]; omega
+        omega)
+      have hi := iadd_index hA0 hidx
+      unfold toGoType
+      rw [hi, if_neg c0, hlpp, Res.bind_ok]
+      show (goSliceFrom data ((o + 32 : Nat) : Int) >>= fun sub =>
+          forEachUnpack (toGoType e) true wordSize sub 0 (vs.length : Int)) = _
+      rw [hsub, Res.bind_ok]
+      unfold forEachUnpack
+      rw [if_neg csz, him, hia0, if_neg cchk]
+      simp only [if_true]
+      unfold makeSlice
+      rw [if_pos cms, Res.bind_ok, etn]
+      have e0 : ((32 * 0 : Nat) : Int) = 0 := rfl
+      rw [e0] at hloop
+      simp only [List.nil_append, List.append_nil] at hloop
+      rw [hloop]
+      rfl
+    · rw [hnone] at hp
+      cases hp
+
+
+/-- executable form of `Ty.Flat`: static elementary types, `string`, `bytes`, and slices (of slices …) of those -/
 def Ty.flatb : Ty → Bool
   | .string => true
   | .bytes => true
-  | .slice e => e.isStaticElem
+  | .slice e => e.isStaticElem || (e.isDynamic && e.flatb)
   | t => t.isStaticElem
 
-theorem Ty.flatb_sound (t : Ty) (h : t.flatb = true) : t.Flat := by
-  cases t with
-  | string => exact Or.inr ⟨rfl, dynOK_bytes _ (Or.inl rfl)⟩
-  | bytes => exact Or.inr ⟨rfl, dynOK_bytes _ (Or.inr rfl)⟩
-  | slice e => exact Or.inr ⟨rfl, dynOK_slice_static e h⟩
-  | _ => first | exact Or.inl h | (simp [Ty.flatb, Ty.isStaticElem] at h)
+theorem Ty.flatb_sound : ∀ (t : Ty), t.flatb = true → t.Flat := by
+  intro t
+  induction t with
+  | string => intro _; exact Or.inr ⟨rfl, dynOK_bytes _ (Or.inl rfl)⟩
+  | bytes => intro _; exact Or.inr ⟨rfl, dynOK_bytes _ (Or.inr rfl)⟩
+  | slice e ih =>
+    intro h
+    simp only [Ty.flatb, Bool.or_eq_true, Bool.and_eq_true] at h
+    rcases h with h | ⟨hd, hf⟩
+    · exact Or.inr ⟨rfl, dynOK_slice_static e h⟩
+    · exact Or.inr ⟨rfl, dynOK_slice_dyn e hd (flat_dynamic (ih hf) hd)⟩
+  | array n e _ => intro h; simp [Ty.flatb, Ty.isStaticElem] at h
+  | uint _ => intro h; exact Or.inl h
+  | int _ => intro h; exact Or.inl h
+  | bool => intro h; exact Or.inl h
+  | address => intro h; exact Or.inl h
+  | tokenStandard => intro h; exact Or.inl h
+  | hash => intro h; exact Or.inl h
+  | fixedBytes _ => intro h; exact Or.inl h
 
 end ZV.Abi
